@@ -1,13 +1,45 @@
 //! Correspondence harness for C07 (re-borrowing account data after any resize history).
+//!
+//! The real work runs in a child process (re-exec of this binary with `HX_CHILD=1`): a change to the code
+//! under test that corrupts memory makes the child abort (SIGSEGV / UB-check abort) instead of panicking.
+//! The supervisor then reports the case the child was executing as an oracle failure of class
+//! `process_abort`, so the check gets a failing input instead of a dead harness.
 mod c07;
 pub mod types;
 pub use types::StarFrameDeclaredProgram;
 
 fn main() {
     let args = hx_common::Args::parse();
-    hx_common::quiet_panics();
-    match args.prop.as_str() {
-        "C07" => c07::run(&args),
-        other => panic!("hx-reborrow: unknown property {other}"),
+    if args.prop != "C07" {
+        panic!("hx-reborrow: unknown property {}", args.prop);
     }
+    if std::env::var_os("HX_CHILD").is_some() {
+        if std::env::var_os("HX_LOUD").is_none() {
+            hx_common::quiet_panics();
+        }
+        c07::run(&args);
+        return;
+    }
+    let progress = args.out.join("current_case.txt");
+    let _ = std::fs::remove_file(&progress);
+    let status = std::process::Command::new(std::env::current_exe().expect("current_exe"))
+        .args(std::env::args().skip(1))
+        .env("HX_CHILD", "1")
+        .status()
+        .expect("spawn child");
+    if status.success() {
+        let _ = std::fs::remove_file(&progress);
+        return;
+    }
+    // the child died: report the case it was executing
+    let text = std::fs::read_to_string(&progress).unwrap_or_default();
+    let mut lines = text.lines();
+    let header = lines.next().filter(|h| h.starts_with("case")).unwrap_or("case unknown").to_string();
+    let mut rec = hx_common::Recorder::new("supervisor: the harness child process aborted; the case it was executing is reported");
+    rec.case(&header);
+    for l in lines {
+        rec.op(l, "abort");
+    }
+    rec.fail("process_abort", &format!("harness child exited with {status} while executing `{header}`"));
+    rec.finish(&args);
 }
